@@ -159,6 +159,13 @@ COVERED_ENTRY = {
     "_TrueSingleton__singleton_instances": {"TrueSingleton.__call__"},
 }
 
+# functions outside the owner classes that the harnesses evaluate as entry points of their own (their whole effect is compared
+# with the reference model), so a direct field write inside them is covered
+HARNESSED_FOREIGN = {
+    "edgegraph.builder.explicit.link_from_to", "edgegraph.builder.explicit.link_directed", "edgegraph.builder.explicit.link_undirected", "edgegraph.builder.explicit.unlink",
+    "edgegraph.builder.adjlist.load_adj_dict", "edgegraph.builder.adjmatrix.load_adj_matrix",
+}
+
 _EFF_CACHE = {}
 
 
@@ -199,6 +206,12 @@ def check_own(ctx, fields):
             if inside:
                 continue
             if f.qual in OWN_EXCEPTIONS.get(field, {}):
+                continue
+            if f.cls is None and f.name.startswith("_") and f.module.name == owner.module.name:
+                res.note(f"OWN: {f.loc()} private module-level helper {f.qual} writes {w.recv}.{field}; accepted as part of the owner's mechanism (same module, private)")
+                continue
+            if f.qual in HARNESSED_FOREIGN:
+                res.note(f"OWN: {f.loc()} {f.qual} writes {w.recv}.{field} directly; it is itself an evaluated entry point of the harnesses, so its effect is decided there")
                 continue
             res.undecide(f"OWN premise lost: {f.loc()} {f.qual} writes {w.recv}.{field} ({w.kind}) from outside the {cname} class hierarchy; the inductive proof for {spec} does not cover this writer")
         # ENTRY: public writers inside the hierarchy must be harnessed
